@@ -24,6 +24,7 @@ pub mod c16;
 pub mod c17;
 pub mod c18;
 pub mod c20;
+pub mod chain;
 pub mod idxc;
 pub mod util;
 
